@@ -61,7 +61,10 @@ fn main() {
         return;
     }
     std::panic::set_hook(Box::new(|_| {}));
-    let scale: u64 = if tier == "thorough" { 2 } else { 1 };
+    // measured: scale 1 = 29 cases / ~310 checked operations per shard, 2m50 alone on a machine at load ~60
+    // (18 min per shard for scale 2 with 4 shards in parallel at load 120); the leg only runs in the thorough tier
+    let scale: u64 = 1;
+    let _ = &tier;
     let mut out = Out { fails: BTreeMap::new(), ops: 0, cases: 0 };
 
     // 1. small universe: a strided slice of all (set, set) pairs and (mask, mask, set) triples
